@@ -265,6 +265,81 @@ def oracle_case(ck, r, case, impl_lines, nsamples, stats):
     return viols
 
 
+# arms of the Lean model functions (Model.lean `match` / `if` arms), as recognisable from the driver's output for one operation
+EXPECTED_ARMS = {
+    'lin': ['const', 'new-self', 'mapfind'], 'quad': ['const', 'new-self', 'mapfind'],
+    'pow': ['const', 'alias', 'new-self', 'mapfind', 'exp0', 'exp1', 'neg-exp-lb<0-skip', 'frac-exp-lb<0-skip', 'even-zero-crossing',
+            'even-one-sided', 'odd', 'neg-exp-lb>=0', 'frac-exp-exact'],
+    'min': ['const', 'new-self', 'mapfind'], 'max': ['const', 'new-self', 'mapfind'],
+    'and': ['const', 'new-self', 'new-rewritten', 'mapfind'], 'or': ['const', 'new-self', 'new-rewritten', 'mapfind'],
+    'alldiff': ['new-self'], 'count': ['const', 'new-self'], 'nvar': ['const', 'new-self'], 'nconst': ['const', 'new-self'],
+    'abs': ['alias', 'redirect', 'redirect-const', 'new-self', 'mapfind'], 'not': ['new-self', 'mapfind'],
+    'div': ['const', 'new-self', 'mapfind'], 'ifthen': ['const', 'new-self', 'mapfind'], 'impl': ['new-self', 'mapfind'],
+    'clin': ['const', 'alias', 'redirect', 'new-self', 'new-rewritten', 'mapfind', 'throw complement', 'eq', 'ineq', 'empty-body',
+             'opt-eqresult-off', 'opt-eqbinary-off'],
+    'cquad': ['const', 'new-self', 'new-rewritten', 'mapfind', 'eq', 'ineq', 'empty-body'],
+    'log': ['new-self', 'narrowed', 'throw infeas'], 'loga': ['new-self', 'narrowed', 'throw infeas'], 'expa': ['new-self'],
+}
+
+
+def op_arms(case, k, op, line, nvars_before, first_new_kind):
+    """arms of the model taken by this operation, read off the driver's output line (+ the parameters of the operation)"""
+    arms = []
+    head = line.split(' | ')[0].split(' ')
+    segs = line.split(' | ')[1:]
+    news = [sg.split(' ') for sg in segs if sg.startswith('v ')]
+    if head[0] == 'const':
+        arms.append('const')
+    elif head[0] == 'throw':
+        arms.append('throw ' + ' '.join(head[1:]))
+    elif head[0] == 'unsupported':
+        arms.append('unsupported')
+    elif head[0] == 'var':
+        v = int(head[1])
+        if v < nvars_before:
+            arms.append('mapfind' if first_new_kind.get(v) == op[0] and op[0] not in ('abs',) or
+                        (first_new_kind.get(v) == op[0]) else 'alias')
+        else:
+            mine = [t for t in news if int(t[1]) == v]
+            dk = mine[0][5] if mine else '?'
+            if dk == op[0]:
+                same = mine[0][5:] == [t if not t.startswith('$') else None for t in op] or len(mine[0][5:]) == len(op) and \
+                    all(a == b or b.startswith('$') for a, b in zip(mine[0][5:], op))
+                arms.append('new-self' if same else 'new-rewritten')
+            elif dk == 'none':
+                arms.append('redirect-const')
+            else:
+                arms.append('redirect')
+    if any(sg.startswith('narrowed') for sg in segs):
+        arms.append('narrowed')
+    if op[0] == 'pow' and head[0] != 'bad-op':
+        p = G.untok(op[2])
+        b = None
+        mine = [t for t in news if t[5] == 'pow']
+        skipped = bool(mine) and mine[0][2] == '-inf' and mine[0][3] == 'inf'
+        if p == 0:
+            arms.append('exp0')
+        elif p == 1:
+            arms.append('exp1')
+        elif p.denominator != 1:
+            arms.append('frac-exp-lb<0-skip' if skipped else 'frac-exp-exact')
+        elif p < 0:
+            arms.append('neg-exp-lb<0-skip' if skipped else 'neg-exp-lb>=0')
+        elif int(p) % 2 == 1:
+            arms.append('odd')
+        else:
+            arms.append('even-zero-crossing' if mine and mine[0][2] == '0' else 'even-one-sided')
+    if op[0] in ('clin', 'cquad'):
+        arms.append('eq' if op[1] == '0' else 'ineq')
+        nlin = int(op[3])
+        if nlin == 0 and (op[0] == 'clin' or op[3 + 1 + 2 * nlin] == '0'):
+            arms.append('empty-body')
+        for nm, val in case.opts:
+            if val == 0 and nm in ('eqresult', 'eqbinary') and op[1] == '0':
+                arms.append('opt-%s-off' % nm)
+    return arms
+
+
 def gen_cases(ck, quick):
     r = G.Rng(ck.seed * 1000003 + 17)
     cases = []
@@ -344,6 +419,7 @@ def run(ck):
     nsamples = 24 if quick else 40
     n_unsupported = 0
     n_inexact = 0
+    arms = {}
     distinct = set()
     for c in cases:
         nl = 1 + len(c.opts) + len(c.vars) + len(c.ops)
@@ -357,7 +433,19 @@ def run(ck):
         op_impl = il[1 + len(c.opts) + len(c.vars):]
         op_model = ml[1 + len(c.opts) + len(c.vars):]
         case_corr = None
+        nvb = len(c.vars)
+        first_new_kind = {}
         for k, op in enumerate(c.ops):
+            if k < len(op_model) and op_model[k] not in ('unsupported', '<missing>'):
+                for a_ in op_arms(c, k, op, op_model[k], nvb, first_new_kind):
+                    arms.setdefault(op[0], {})
+                    arms[op[0]][a_] = arms[op[0]].get(a_, 0) + 1
+                for sg in op_model[k].split(' | ')[1:]:
+                    if sg.startswith('v '):
+                        t_ = sg.split(' ')
+                        first_new_kind[int(t_[1])] = t_[5]
+                        nvb += 1
+
             kinds[op[0]] = kinds.get(op[0], 0) + 1
             n_lines += 1
             a, b = op_impl[k], (op_model[k] if k < len(op_model) else '<missing>')
@@ -410,6 +498,16 @@ def run(ck):
     ck.cov['correspondence'] = {'op_lines_compared_model_vs_impl': n_lines, 'cases': len(cases), 'corpus_cases': n_corpus,
                                 'disagreements': sum(len(v) for v in corr_bad.values()), 'model_unsupported': n_unsupported, 'inexact_not_compared': n_inexact}
     ck.cov['op_kinds'] = kinds
+    ck.cov['model_arms'] = arms
+    missing = {k: [a for a in v if not arms.get(k, {}).get(a)] for k, v in EXPECTED_ARMS.items()}
+    ck.cov['model_arms_never_taken'] = {k: v for k, v in missing.items() if v}
+    ck.log('model arms never taken by this stream: %s' % json.dumps(ck.cov['model_arms_never_taken'], sort_keys=True))
+    cj = os.path.join(VERIF, 'design_notes', 'coverage', 'C06.json')
+    if os.path.exists(cj):
+        cm = json.load(open(cj))
+        ck.cov['anchor_line_cov'] = cm.get('anchor_line_cov')
+        ck.cov['anchor_branch_cov'] = cm.get('anchor_branch_cov')
+        ck.cov['anchor_cov_note'] = 'measured in the last VERIF_COVERAGE=1 run (design_notes/coverage/C06.json), not recomputed here'
     ck.cov['outcomes'] = stats['outcome']
     ck.cov['box_classes'] = boxcls
     ck.cov['empty_domain_cases'] = stats['empty_domain_cases']
@@ -859,7 +957,8 @@ def coverage_run(ck):
     for mi, (src, m, grids) in enumerate(models):
         stub = os.path.join(wdir, 'm%d' % (mi % 8))
         m.write(stub, names=False)
-        R.run(exes['recsolver'], stub, accept='ALL', timeout=60)
+        cfg = getattr(m, 'c06cfg', None) or {'accept': 'ALL', 'options': []}
+        R.run(exes['recsolver'], stub, accept=cfg['accept'], options=cfg['options'], timeout=60)
     for extra in e2e_extra_runs(ck, exes['recsolver'], wdir):
         pass
     # gcov
